@@ -317,7 +317,7 @@ static OptC genOpt(int nvar)
   o.lock_iso2d = G::pct(15);
   o.keep_intstr = G::pct(10);
   o.goulard = nvar > 1 ? !G::pct(3) : !G::pct(25);
-  o.intrinsic = G::pct(8);
+  o.intrinsic = 0; // known finding C17-intrinsic-crash: flag_intrinsic dereferences an unallocated array (replay file only)
   o.wmode = G::pick({2, 2, 0, 1, 3});
   o.maxiter = G::pick({1000, 1000, 1000, 100, 20, 3});
   o.tolsigma = G::pick({5., 5., 5., 0., 20.});
@@ -388,6 +388,15 @@ static void genCons(FitCase& c, double vref)
     used.insert(keyK);
     c.cons.push_back(k);
   }
+  // known finding C17-matern-param-start (replay file only, it ends in a sanitizer abort): a lone lower bound above
+  // the default value 1 makes st_affect start at the middle of [bound, parmax = 1000] where MATERN evaluates to NaN
+  for (auto& k : c.cons)
+  {
+    if (k.elem != 3 || k.kind != -1 || c.types[(size_t)k.icov] != 7 || k.value <= 1.) continue;
+    bool upper = false;
+    for (auto& o : c.cons) upper = upper || (o.elem == 3 && o.icov == k.icov && o.kind == 1);
+    if (!upper) k.value = 0.9 * k.value / 5.;
+  }
 }
 
 static FitCase genFitCommon(bool sillsOnly)
@@ -445,7 +454,7 @@ static FitCase genFit() { return genFitCommon(false); }
 static FitCase genSills()
 {
   FitCase c = genFitCommon(true);
-  c.opt.intrinsic = G::pct(15);
+  c.opt.intrinsic = 0;
   return c;
 }
 
